@@ -99,8 +99,10 @@ Fixpoint cat_units (snapshot cur : list cunit) (st : list cdraw) : option (list 
   end.
 
 (* ---------- splits (195-217): one split per annotator per round: pop the unit at a random index, cut it at uniform(start + 1% of its
-   length, end); if a piece is too short for the container both adds fall back to the original unit ---------- *)
-Definition split_one (prec : Q) (us : list cunit) (st : list cdraw) : option (list cunit * list cdraw) :=
+   length, end); if a piece is too short for the container the unit is left as it was.
+   repaired = true : the current code (after the fix commit): the first piece, when it was added before the second one failed, is withdrawn;
+   repaired = false: the code as it was, which then re-added the original unit ON TOP of the first piece (duration counted twice) ---------- *)
+Definition split_one_gen (repaired : bool) (prec : Q) (us : list cunit) (st : list cdraw) : option (list cunit * list cdraw) :=
   match st with
   | CRandint i :: CUniform cut :: st' =>
     match nth_error us i with
@@ -110,12 +112,14 @@ Definition split_one (prec : Q) (us : list cunit) (st : list cdraw) : option (li
       let left := mkCU (cs u) cut (cc u) in
       if addable prec right then
         if addable prec left then Some (cins left (cins right rest), st')
-        else Some (cins u (cins right rest), st')          (* first add done, second raised: the original unit is added back *)
-      else Some (cins u rest, st')
+        else if repaired then Some (cins u (cdel right (cins right rest)), st')   (* first add done, second raised: piece withdrawn, unit back *)
+        else Some (cins u (cins right rest), st')
+      else Some (cins u (if repaired then cdel right rest else rest), st')          (* discard of a piece that was never added, then unit back *)
     | None => None
     end
   | _ => None
   end.
+Definition split_one := split_one_gen true.
 Fixpoint split_round (prec : Q) (corpus : list (list cunit)) (st : list cdraw) : option (list (list cunit) * list cdraw) :=
   match corpus with
   | [] => Some ([], st)
